@@ -6,7 +6,7 @@
    hook arguments and return the same point and outcome kind, and the caller's
    start vector must be unchanged. *)
 From Coq Require Import ZArith List Bool Floats.
-From ADV Require Import Base.Num Base.Corr C07.Model C07.ModelNewton C07.ModelNewtonMin C07.ModelSaga C07.ModelBlahut C07.ModelAdamGeneric.
+From ADV Require Import Base.Num Base.Corr C07.Model C07.ModelNewton C07.ModelNewtonMin C07.ModelSaga C07.ModelSagaJit C07.ModelBlahut C07.ModelAdamGeneric.
 Import ListNotations.
 Open Scope Z_scope.
 
@@ -43,6 +43,7 @@ Inductive routine :=
 | RNewton (crit : bool) (p : nw_params (A := float))    (* crit: RunCrit (y = gradient, J = Hessian) *)
 | RNewtonMin (p : nm_params (A := float))               (* nm_phi: RunMin; else the back-tracking variant *)
 | RSaga (p : sg_params (A := float))
+| RSagaJit (p : sg_params (A := float))                 (* sagaJit (JitUpdateL1), round 4: sg_prox_op = PL1 lambda *)
 | RBlahut (p : bl_params).
 
 Record case := mkCase {
@@ -132,6 +133,7 @@ Definition run_case (c : case) : outcome (A := float) * trace (A := float) :=
   | RNewton _ _ => (OutOfFuel, [])     (* replayed by run_newton / check_newton below *)
   | RNewtonMin _ => (OutOfFuel, [])    (* replayed by run_newton_min / check_newton_min below *)
   | RSaga _ => (OutOfFuel, [])         (* replayed by run_saga / check_saga below *)
+  | RSagaJit _ => (OutOfFuel, [])      (* replayed by run_saga_jit / check_saga_jit below *)
   | RBlahut _ => (OutOfFuel, [])       (* replayed by run_blahut / check_blahut below *)
   end.
 
@@ -275,10 +277,23 @@ Definition check_saga (c : case) (p : sg_params (A := float)) : bool :=
   && (sg_kind o =? c_kind c)
   && ((c_kind c =? 3) || vfeqb (sg_point o) (c_point c))
   && vfeqb (c_x0 c) (c_x0_after c).
+Definition run_saga_jit (c : case) (p : sg_params (A := float)) :=
+  let tbl := c_table c in
+  saga_jit NumF (oSF tbl) (oRJ tbl) (oSHK tbl) p (length tbl + 5)%nat (c_x0 c).
+Definition check_saga_jit (c : case) (p : sg_params (A := float)) : bool :=
+  let r := run_saga_jit c p in
+  let o := fst (fst r) in
+  list_match sev_match (rev (snd (fst r))) (c_table c)
+  && (sg_kind o =? c_kind c)
+  && ((c_kind c =? 3) || vfeqb (sg_point o) (c_point c))
+  && vfeqb (c_x0 c) (c_x0_after c).
 Definition diverge_saga (c : case) : option nat * Z * list float :=
   match c_routine c with
   | RSaga p =>
       let r := run_saga c p in
+      (first_mis sev_match 0 (rev (snd (fst r))) (c_table c), sg_kind (fst (fst r)), sg_point (fst (fst r)))
+  | RSagaJit p =>
+      let r := run_saga_jit c p in
       (first_mis sev_match 0 (rev (snd (fst r))) (c_table c), sg_kind (fst (fst r)), sg_point (fst (fst r)))
   | _ => (None, 0, [])
   end.
@@ -309,6 +324,7 @@ Definition check (c : case) : bool :=
   match c_routine c with
   | RBlahut p => check_blahut c p
   | RSaga p => check_saga c p
+  | RSagaJit p => check_saga_jit c p
   | RNewton _ p => check_newton c p
   | RNewtonMin p => check_newton_min c p
   | _ =>
